@@ -32,13 +32,14 @@ def main(path, start):
                 out['valt'] = float(m.mutual_info_estimator_numba(Y2, X, r, bool(c['cc'])))
             # the same call as the pipeline makes it: numba_mi(feature matrix, target, heuristic name, CLI ratio)
             name = 'MI-numba-randomized' if c['cc'] else 'MI-numba-3mr'
-            out['vn'] = float(ie.numba_mi(Y.reshape(-1, 1).copy(), X.copy(), name, float(r)))
+            r_glue = c.get('r_py', float(r))          # the ratio as the caller / CLI holds it (a Python float)
+            out['vn'] = float(ie.numba_mi(Y.reshape(-1, 1).copy(), X.copy(), name, r_glue))
             if c.get('alt') is not None:
-                out['vnalt'] = float(ie.numba_mi(Y2.reshape(-1, 1).copy(), X.copy(), name, float(r)))
+                out['vnalt'] = float(ie.numba_mi(Y2.reshape(-1, 1).copy(), X.copy(), name, r_glue))
             # one level further up: conduct_feature_ranking(vector, vector, args) as get_importances_estimate_pairwise calls it, with
             # the ratio in `args`; the worker process serves many cases with other ratios before this one (a library session)
             import types
-            a = types.SimpleNamespace(heuristic=name, mi_stratified_sampling_ratio=float(r))
+            a = types.SimpleNamespace(heuristic=name, mi_stratified_sampling_ratio=r_glue)
             out['vc'] = float(ie.conduct_feature_ranking(Y.reshape(-1, 1).copy(), X.copy(), a))
             if c.get('alt') is not None:
                 out['vcalt'] = float(ie.conduct_feature_ranking(Y2.reshape(-1, 1).copy(), X.copy(), a))
